@@ -5,6 +5,7 @@ import (
 	"fmt"
 	"math/rand/v2"
 	"reflect"
+	"sync"
 	"time"
 
 	"simrt"
@@ -28,6 +29,7 @@ type CfgPlain struct {
 type PlainSpec struct {
 	Delay    bool `json:"delay"`
 	Suppress bool `json:"suppress"`
+	Values   bool `json:"values,omitempty"` // the C05 variant: a source that hands out values of the plain config type
 }
 
 func genPlain(seed uint64, faulty bool) *Scenario {
@@ -237,6 +239,282 @@ func runPlain(sc *Scenario, res *Result, keepLog bool) {
 	}
 	res.Viol = viol
 	res.Reason = "plain"
+	res.Hash, res.Steps, res.NChoices, res.SimNS, res.States = s.Hash(), s.Step(), s.Choices(), int64(s.Elapsed()), s.States
+	for k, v := range probes {
+		res.Probes[k] += v
+	}
+	res.Made = make([]int, len(s.Made))
+	for i, c := range s.Made {
+		res.Made[i] = c.V
+	}
+	res.Log = s.Log
+}
+
+// ---- C05 with a source that hands out values of the plain config type ----
+//
+// "Sources can return whatever Value they want": a source may return a value
+// of the config type itself (every scalar leaf counts as set, nil-able leaves
+// only when non-nil) instead of the pointerified type. The re-stacked view
+// must equal a fresh stack of the same values all the same.
+
+type PlainLim struct {
+	Soft int
+	Hard int
+}
+
+type CfgPlain2 struct {
+	A    int
+	Name string
+	Lim  *PlainLim
+	Tags []string
+}
+
+type plain2Val struct {
+	A, Soft, Hard *int
+	Name          *string
+	Tags          []string
+	HasLim        bool
+}
+
+func (v *plain2Val) plain() reflect.Value {
+	c := &CfgPlain2{}
+	if v.A != nil {
+		c.A = *v.A
+	}
+	if v.Name != nil {
+		c.Name = *v.Name
+	}
+	if v.HasLim {
+		c.Lim = &PlainLim{}
+		if v.Soft != nil {
+			c.Lim.Soft = *v.Soft
+		}
+		if v.Hard != nil {
+			c.Lim.Hard = *v.Hard
+		}
+	}
+	if v.Tags != nil {
+		c.Tags = append([]string{}, v.Tags...)
+	}
+	return reflect.ValueOf(c)
+}
+
+func (v *plain2Val) pointerified(t reflect.Type) reflect.Value {
+	out := reflect.New(t).Elem()
+	if v.A != nil {
+		a := *v.A
+		out.FieldByName("A").Set(reflect.ValueOf(&a))
+	}
+	if v.Name != nil {
+		n := *v.Name
+		out.FieldByName("Name").Set(reflect.ValueOf(&n))
+	}
+	if v.HasLim {
+		lf := out.FieldByName("Lim")
+		l := reflect.New(lf.Type().Elem())
+		if v.Soft != nil {
+			x := *v.Soft
+			l.Elem().FieldByName("Soft").Set(reflect.ValueOf(&x))
+		}
+		if v.Hard != nil {
+			x := *v.Hard
+			l.Elem().FieldByName("Hard").Set(reflect.ValueOf(&x))
+		}
+		lf.Set(l)
+	}
+	if v.Tags != nil {
+		out.FieldByName("Tags").Set(reflect.ValueOf(append([]string{}, v.Tags...)))
+	}
+	return out
+}
+
+// apply: the reference model of overlaying this value (plain or pointerified).
+func (v *plain2Val) apply(c *CfgPlain2, plain bool) {
+	if v.A != nil {
+		c.A = *v.A
+	} else if plain {
+		c.A = 0
+	}
+	if v.Name != nil {
+		c.Name = *v.Name
+	} else if plain {
+		c.Name = ""
+	}
+	if v.HasLim {
+		if c.Lim == nil {
+			c.Lim = &PlainLim{}
+		}
+		if v.Soft != nil {
+			c.Lim.Soft = *v.Soft
+		} else if plain {
+			c.Lim.Soft = 0
+		}
+		if v.Hard != nil {
+			c.Lim.Hard = *v.Hard
+		} else if plain {
+			c.Lim.Hard = 0
+		}
+	}
+	if v.Tags != nil {
+		c.Tags = append([]string{}, v.Tags...)
+	}
+}
+
+type plain2Source struct {
+	plain bool
+	cur   *plain2Val
+	wa    dials.WatchArgs
+	typ   *dials.Type
+}
+
+func (s *plain2Source) value(t *dials.Type) reflect.Value {
+	if s.cur == nil {
+		return reflect.New(t.Type()).Elem()
+	}
+	if s.plain {
+		return s.cur.plain()
+	}
+	return s.cur.pointerified(t.Type())
+}
+
+func (s *plain2Source) Value(_ context.Context, t *dials.Type) (reflect.Value, error) {
+	return s.value(t), nil
+}
+
+func (s *plain2Source) Watch(_ context.Context, t *dials.Type, wa dials.WatchArgs) error {
+	s.wa, s.typ = wa, t
+	return nil
+}
+
+func genPlain2(seed uint64, faulty bool) *Scenario {
+	g := &gen{r: rand.New(rand.NewPCG(seed, 0x5eed5eed))}
+	sc := &Scenario{Prop: "C05", Seed: seed, Faulty: faulty, GlobalCB: "instant", Shutdown: "cancel", MaxSteps: 6000}
+	sc.Plain = &PlainSpec{Values: true}
+	for src := 0; src < 2; src++ {
+		c := ClientSpec{Name: fmt.Sprintf("src%d", src), Kind: "reporter", Src: src}
+		for i, n := 0, g.in(1, 5); i < n; i++ {
+			c.Ops = append(c.Ops, Op{K: "breport", N: int(g.id()), Str: fmt.Sprintf("%03b", g.r.IntN(32))})
+		}
+		sc.Clients = append(sc.Clients, c)
+	}
+	return sc
+}
+
+// plain2From derives a value from an op: N is the number base, the bits of
+// Str say which leaves are set.
+func plain2From(op *Op) *plain2Val {
+	bits := 0
+	fmt.Sscanf(op.Str, "%b", &bits)
+	n := op.N
+	v := &plain2Val{}
+	if bits&1 != 0 {
+		v.A = ip(n*10 + 1)
+	}
+	if bits&2 != 0 {
+		v.HasLim = true
+		v.Soft = ip(n*10 + 2)
+	}
+	if bits&4 != 0 {
+		v.HasLim = true
+		v.Hard = ip(n*10 + 3)
+	}
+	if bits&8 != 0 {
+		v.Name = sp(fmt.Sprintf("n%d", n))
+	}
+	if bits&16 != 0 {
+		v.Tags = []string{fmt.Sprintf("t%d", n)}
+	}
+	return v
+}
+
+func runPlain2(sc *Scenario, res *Result, keepLog bool) {
+	s := simrt.New(sc.Seed, sc.Choices)
+	defer s.Close()
+	s.Record, s.KeepLog, s.Bias = true, keepLog, sc.Bias
+	var viol []Violation
+	fail := func(oracle, format string, a ...any) {
+		if len(viol) < 20 {
+			viol = append(viol, Violation{Oracle: oracle, Msg: fmt.Sprintf(format, a...)})
+		}
+	}
+	probes := map[string]int{}
+	ctx, cancel := context.WithCancel(context.Background())
+	defaults := func() *CfgPlain2 { return &CfgPlain2{A: 1, Name: "default", Tags: []string{"d"}} }
+	// the lower source hands out plain values, the upper one pointerified ones
+	srcs := []*plain2Source{{plain: true}, {plain: false}}
+	d, err := dials.Config(ctx, defaults(), srcs[0], srcs[1])
+	if err != nil {
+		res.Infra = "plain2 Config failed: " + err.Error()
+		cancel()
+		return
+	}
+	expect := func() *CfgPlain2 {
+		c := defaults()
+		for _, src := range srcs {
+			if src.cur != nil {
+				src.cur.apply(c, src.plain)
+			}
+		}
+		return c
+	}
+	var snaps []struct {
+		cfg *CfgPlain2
+		fp  string
+	}
+	finished, clients := 0, 0
+	var turn sync.Mutex
+	for ci := range sc.Clients {
+		c := &sc.Clients[ci]
+		clients++
+		s.Spawn(c.Name, func() {
+			defer func() { finished++ }()
+			src := srcs[c.Src]
+			for i := range c.Ops {
+				op := &c.Ops[i]
+				// one report at a time: the expectation after each is exact
+				simrt.MuLock(&turn, "turn")
+				src.cur = plain2From(op)
+				if e := src.wa.BlockingReportNewValue(ctx, src.value(src.typ)); e != nil {
+					fail("C05.fresh-stack", "blocking report of a %s value failed: %v", map[bool]string{true: "plain-typed", false: "pointerified"}[src.plain], e)
+				}
+				got := d.View()
+				probes["plain-typed-source-restack"]++
+				if a, b := render(got), render(expect()); a != b {
+					fail("C05.model", "after a report of source %d the view differs from the stack of the defaults and the two sources' last values (the lower source hands out values of the plain config type)\n view:  %s\n model: %s", c.Src, a, b)
+				}
+				fresh, ferr := dials.Config(context.Background(), defaults(), &plain2Source{plain: true, cur: srcs[0].cur}, &plain2Source{plain: false, cur: srcs[1].cur})
+				if ferr != nil {
+					fail("C05.fresh-stack", "a fresh Config over the same values failed: %v", ferr)
+				} else if a, b := render(got), render(fresh.View()); a != b {
+					fail("C05.fresh-stack", "after a report of source %d the view differs from a fresh Config over the same values\n view:  %s\n fresh: %s", c.Src, a, b)
+				}
+				snaps = append(snaps, struct {
+					cfg *CfgPlain2
+					fp  string
+				}{got, render(got)})
+				simrt.MuUnlock(&turn)
+			}
+		})
+	}
+	reason := s.Run(sc.MaxSteps, func() bool { return finished >= clients }, time.Time{})
+	s.Run(sc.MaxSteps, nil, time.Now().Add(settleHorizon))
+	for _, c := range s.Crashes {
+		fail("crash", "task %s panicked at step %d: %s\n%s", c.Task, c.Step, c.Value, c.Stack)
+	}
+	s.Crashes = nil
+	if reason != simrt.Done {
+		fail("stuck", "clients did not finish (%s)", reason)
+	}
+	for _, sn := range snaps {
+		if now := render(sn.cfg); now != sn.fp {
+			fail("C04.view-mutated", "a version changed after it became visible\n then: %s\n now:  %s", sn.fp, now)
+			break
+		}
+	}
+	cancel()
+	s.Run(20000, nil, time.Now().Add(settleHorizon))
+	res.Viol = viol
+	res.Reason = "plain-values"
 	res.Hash, res.Steps, res.NChoices, res.SimNS, res.States = s.Hash(), s.Step(), s.Choices(), int64(s.Elapsed()), s.States
 	for k, v := range probes {
 		res.Probes[k] += v
